@@ -106,13 +106,14 @@ VARIANTS = [{"label": "optimized"}, {"label": "unoptimized", "opts": {"optimized
 def run(ck):
     quick = ck.tier == "quick"
     rnd = random.Random(ck.seed + 8)
-    base = jgen.expr_cases(ck.seed * 31 + 8, 250 if quick else 5000, depth=3)
+    base = jgen.expr_cases(ck.seed * 31 + 8, 130 if quick else 2500, depth=3)
+    base += jgen.expr_cases(ck.seed * 31 + 9, 170 if quick else 3500, start_id=len(base) + 1, depth=3, rich=True)
     base += jgen.random_cases(ck.seed * 31 + 88, 120 if quick else 3000, start_id=len(base) + 1, features=("loopcontrols", "safe"))
     for c in base:
         c.pop("emit_values", None)
     # the same expressions in positions that go through the optimizer pass instead of the
     # compile-time folding of output nodes: {% set v = expr %}{{ v }} and {% if expr %}
-    nexpr = 250 if quick else 5000
+    nexpr = 300 if quick else 6000
     for c in list(base[:nexpr]):
         e = c["tpls"]["main"]["body"][0]["e"]
         body = [J.Set("v", e), J.Out(J.Name("v")), J.If([e], [[J.Text("T")]], [J.Text("F")])]
